@@ -78,7 +78,7 @@ theorem gpb_rel (e : Env) : (gpb.fix e).Rel (fun h => GpbJ (h + 1)) where
     exact gpb_step h s c o.op hj
   noLeak := fun _ _ => rfl
   blind := by
-    intro s c₁ c₂ h o
+    intro s c₁ c₂ h o _ _
     simp only [EComp.fix, gpb]
     split
     · rfl
@@ -274,7 +274,7 @@ theorem gpbU_adequate (e : Env) : UAdequate (gpbU.fix e) GpbGood where
       funext i
       rw [gpbLookup_spec g1, gpbLookup_spec g2]
     · intro b
-      exact runBlock_blind (gpb.fix e) (gpb_rel e) (h + 1) b s c₁ c₂
+      exact runBlock_blind (gpb.fix e) (gpb_rel e) (h + 1) b s c₁ c₂ (g1.mono (Nat.le_succ _)) (g2.mono (Nat.le_succ _))
 
 /-- the state NEO.Initialize leaves at genesis (native_neo.go:349-354): one record of index 0 -/
 theorem gpb_genesis_good (v : Int) : GpbGood [(0, v)] [(0, v)] 0 :=
